@@ -3,6 +3,8 @@ package props
 import (
 	"encoding/json"
 	"fmt"
+	"math/rand/v2"
+	"sort"
 
 	"verif/internal/gen"
 	"verif/internal/h"
@@ -18,7 +20,7 @@ func init() {
 			"Non-trivial: a compound whose operands are not both constants true/false; distinct by (expression, document, mode, options)",
 		Run:          runC11,
 		Replay:       replayC11,
-		MinExercised: map[string]int64{"table.and": 300, "table.or": 300, "table.not": 50, "isunknown": 50, "law.and": 3000, "law.or": 3000, "law.dneg": 1000, "law.demorgan": 1000, "exists": 1000, "match": 1000, "law.commute.filter": 1000},
+		MinExercised: map[string]int64{"table.and": 300, "table.or": 300, "table.not": 50, "isunknown": 50, "law.and": 3000, "law.or": 3000, "law.dneg": 1000, "law.demorgan": 1000, "exists": 1000, "match": 1000, "law.commute.filter": 1000, "law.filter.meet": 1000},
 		Assumptions: []string{
 			"an operand that raises a non-suppressible error and is evaluated must make the whole expression fail with that error; on the right of a left operand that already decides the result it may be short-circuited or reported",
 			"lax exists(e) on a failing e: true iff an item precedes the failure, else unknown (false tolerated: the statement says unknown arises only when e fails, not whenever it does)",
@@ -344,7 +346,103 @@ func runC11(c *h.Ctx) {
 			}
 			checkFilterCommute(e, fp, fq)
 		}
+		// conjunction / disjunction of conditions over several items: the items
+		// kept by p && q are those kept by p and by q, by p || q those kept by
+		// either - with an operand that is anchored outside the item but
+		// subscripted by a member of it (its value differs per item)
+		if i%3 == 1 {
+			checkFilterMeet(e, r, g)
+		}
 	}
+}
+
+func checkFilterMeet(e *c11Eval, r *rand.Rand, g *gen.G) {
+	prefix, p, cdoc := crossRef(r, false)
+	q := g.Pred(1, true, false)
+	if exposesOrder(&gen.Path{Root: q}) || hasMethod(q, "keyvalue") {
+		q = &gen.N{K: gen.KBin, S: ">", A: &gen.N{K: gen.KCurrent, Next: &gen.N{K: gen.KKey, S: "c"}}, B: &gen.N{K: gen.KInt, I: 0}}
+	}
+	if r.IntN(2) == 0 {
+		p, q = q, p
+	}
+	mode := ""
+	if !e.lax {
+		mode = "strict "
+	}
+	// number the items so that they are distinguishable
+	doc := h.Decode(cdoc, e.useNum)
+	if items, ok := doc.(map[string]any)["a"].([]any); ok {
+		for i, it := range items {
+			if m, ok := it.(map[string]any); ok {
+				m["k"] = int64(i)
+			}
+		}
+	}
+	vars := h.DecodeVars(stdVars, e.useNum)
+	pre := gen.SpellNode(prefix, nil)
+	pt, qt := "("+gen.SpellNode(p, nil)+")", "("+gen.SpellNode(q, nil)+")"
+	keys := func(cond string) (map[string]bool, string, bool) {
+		txt := mode + pre + " ? (" + cond + ").k"
+		pp, err, pan := h.ParseSafe(txt)
+		if err != nil || pan != "" {
+			e.c.Count("gen.unparsable", 1)
+			return nil, txt, false
+		}
+		o := h.Call("query", pp, doc, h.Opts{Vars: vars})
+		e.c.Eval(1)
+		if o.Class != h.OK {
+			return nil, txt, false
+		}
+		out := map[string]bool{}
+		for _, it := range o.Items {
+			out[h.Canon(it)] = true
+		}
+		return out, txt, true
+	}
+	kp, _, ok1 := keys(pt)
+	kq, _, ok2 := keys(qt)
+	if !ok1 || !ok2 {
+		e.c.Skip("law.filter.meet", "an-operand-run-fails")
+		return
+	}
+	db, _ := json.Marshal(doc)
+	for _, form := range []struct {
+		cond string
+		and  bool
+	}{{pt + " && " + qt, true}, {qt + " && " + pt, true}, {pt + " || " + qt, false}, {qt + " || " + pt, false}, {"!(!" + pt + " || !" + qt + ")", true}} {
+		got, txt, ok := keys(form.cond)
+		if !ok {
+			e.c.Skip("law.filter.meet", "a-run-fails")
+			continue
+		}
+		want := map[string]bool{}
+		for k := range kp {
+			if !form.and || kq[k] {
+				want[k] = true
+			}
+		}
+		if !form.and {
+			for k := range kq {
+				want[k] = true
+			}
+		}
+		cs := h.Case{Kind: "filter-meet", Path: txt, Doc: string(db), UseNum: e.useNum, Vars: stdVars}
+		if fmt.Sprint(sortedKeys(got)) != fmt.Sprint(sortedKeys(want)) {
+			e.c.Violate("law.filter.meet", h.F("and", fmt.Sprint(form.and), "mode", modeName(e.lax)), fmt.Sprintf("%s keeps the items %v; %s alone keeps %v and %s alone keeps %v", txt, sortedKeys(got), pt, sortedKeys(kp), qt, sortedKeys(kq)), cs)
+		} else {
+			e.c.Held("law.filter.meet")
+		}
+		e.c.Distinct(txt, string(db))
+	}
+}
+
+func sortedKeys(m map[string]bool) []string {
+	out := make([]string, 0, len(m))
+	for k := range m {
+		out = append(out, k)
+	}
+	sort.Strings(out)
+	return out
 }
 
 // checkFilterCommute: $[*] ? (p op q) and $[*] ? (q op p) keep the same items
